@@ -256,6 +256,21 @@ def v_ion_near_acid(items):
     return None
 
 
+def v_three_ion_types(items):
+    """Three ions of different types around one acid (the order in which
+    ion determinants are listed must not depend on how ion types hash)."""
+    for kind, it in items:
+        if kind == 'A' and it.resname in ('ASP', 'GLU') and it.name.strip() in ('OD1', 'OE1'):
+            out = list(items)
+            for n, (nm, res, el, d) in enumerate((('NA  ', ' NA', 'NA', (3.0, 2.0, 1.0)),
+                                                  ('CL  ', ' CL', 'CL', (-2.5, 3.0, -2.0)),
+                                                  ('MG  ', ' MG', 'MG', (2.0, -3.5, 2.5)))):
+                pos = (it.x + d[0], it.y + d[1], it.z + d[2])
+                out.append(('A', _hetero(it, nm, res, it.chain, 910 + n, pos, el)))
+            return out
+    return None
+
+
 # ---------------------------------------------------------------- builder
 
 def v_drop_oxt(items):
@@ -302,6 +317,7 @@ def _family(fam, base, inputs, nvar, salt):
         ('crlf', lambda: list(base)),
         ('bter', lambda: v_drop_oxt(base)),
         ('cbt', lambda: v_drop_oxt(base)),
+        ('ion3', lambda: v_three_ion_types(base)),
     ]
     for j in range(nvar):
         tag, fn = makers[(salt + j * 3) % len(makers)]
